@@ -379,6 +379,8 @@ pub fn execute(h: &History, want: &str, rep: &mut Report, mut trace: Option<&mut
             Op::Tick(n) => {
                 for t in 1..=*n {
                     let before = st;
+                    // the phase counter before the tick (C03 speaks of the fraction of the phase that the tick covers)
+                    let bits_prev = if want == "C03" || want == "ALL" { call!(adsr.verif_phase_bits(), i, Some(t)) } else { 0 };
                     call!(adsr.tick(), i, Some(t));
                     n_eval += 1;
                     let got = call!(adsr.verif_state(), i, Some(t));
@@ -402,7 +404,9 @@ pub fn execute(h: &History, want: &str, rep: &mut Report, mut trace: Option<&mut
                         hi += x * (1.0 + REL);
                         ticks_in_phase += 1;
                         if got == before {
-                            if lo >= 1.0 {
+                            // C17 only says "after finitely many ticks": as bounded progress, ten times what C02 allows
+                            // (a wider time clamp is C20's and C02's business, not a hang)
+                            if lo >= if want == "C17" { 10.0 } else { 1.0 } {
                                 fail!(
                                     "C02",
                                     "late",
@@ -535,11 +539,22 @@ pub fn execute(h: &History, want: &str, rep: &mut Report, mut trace: Option<&mut
                         }
                     }
                     // ---------------- C03: continuity ----------------
+                    // the fraction of the phase covered by this tick: what the configured time commands, or what the
+                    // phase counter actually did if that is more (whether the time in force is the right one is C02's
+                    // clause; a jump of the output is a discontinuity only relative to the phase actually covered)
+                    let same = after == before;
+                    let x_obs = |p: State| -> f64 {
+                        if p == before {
+                            if same { (bits as f64 - bits_prev as f64).max(0.0) / TWO24 } else { (TWO24 - bits_prev as f64).max(0.0) / TWO24 }
+                        } else {
+                            bits as f64 / TWO24
+                        }
+                    };
                     let slope = |p: State| -> f64 {
                         match p {
-                            State::Attack => S_ATTACK * (1.0 - l0_a) / (ta as f64 * fs64),
-                            State::Decay => S_DECAY * (1.0 - s as f64) / (td as f64 * fs64),
-                            State::Release => S_DECAY * l0_r / (tr as f64 * fs64),
+                            State::Attack => S_ATTACK * (1.0 - l0_a) * (1.0 / (ta as f64 * fs64)).max(x_obs(p)),
+                            State::Decay => S_DECAY * (1.0 - s as f64) * (1.0 / (td as f64 * fs64)).max(x_obs(p)),
+                            State::Release => S_DECAY * l0_r * (1.0 / (tr as f64 * fs64)).max(x_obs(p)),
                             _ => 0.0,
                         }
                     };
